@@ -95,7 +95,7 @@ func runC02(r *mon.Run) {
 	maxN := r.Pick(3, 4)
 	_ = maxN
 	maxN = 4
-	reps := r.Pick(3, 40)
+	reps := r.Pick(3, 12)
 	for rep := 0; rep < reps; rep++ {
 		for n := 1; n <= maxN; n++ {
 			for types := 0; types < 1<<n; types++ {
@@ -238,12 +238,13 @@ func c02Session(r *mon.Run, jr *rand.Rand, s, s2 *session) {
 			out = append(out, mut{"-1", sub(v, bigOne)})
 		}
 		nb := 12
-		if r.Thorough() {
-			nb = bits
+		allBits := r.Thorough() && len(s.list) == 1
+		if allBits {
+			nb = bits // every single bit for single-proof sessions in the thorough tier
 		}
 		for k := 0; k < nb; k++ {
 			b := k
-			if !r.Thorough() {
+			if !allBits {
 				b = jr.IntN(bits)
 			}
 			out = append(out, mut{fmt.Sprintf("bit%d", b), new(big.Int).Xor(v, pow2(uint(b)))})
